@@ -95,3 +95,28 @@ Example C08_hindsight :
      IInv 2 (SWrite k 6 0); ILin 1 false (XHit 5); ILin 2 false XUnit; IRes 2 XUnit;
      IRes 1 (XHit 5)].
 Proof. vm_compute. reflexivity. Qed.
+
+(* ---- tie to the source: the function bodies below are re-translated from /repo on every run
+   (harness/cmd/gofunc -> theories/Generated/Funcs.v, interpreted by theories/GoIR.v) ---- *)
+From Coq Require Import String.
+From Cache Require Import GoIR.
+From Cache.Generated Require Import Funcs.
+Open Scope string_scope.
+Open Scope Z_scope.
+From Coq Require Import String.
+From Cache Require Import GoIR TieWalk.
+From Cache.Generated Require Import Funcs.
+Open Scope string_scope.
+Open Scope Z_scope.
+
+(* a visit of Walk releases the shard's read lock around the callback, hands it a copy of the entry with E and C loaded
+   atomically, and re-acquires the lock; each visited entry is counted once *)
+Theorem C08_source_walk_visit : forall cb_ok e c n,
+  run_visit fn_shardedMap_Walk cb_ok e c n =
+    Some (if cb_ok then ([("RUnlock", []); ("callback", [copy_of "TraitEntry" e c]); ("RLock", [])], n + 1, VisitNext)
+          else ([("RUnlock", []); ("callback", [copy_of "TraitEntry" e c])], n, VisitStop n)) /\
+  run_visit fn_shardedMapOf_Walk cb_ok e c n =
+    Some (if cb_ok then ([("RUnlock", []); ("callback", [copy_of "TraitEntryOf[V]" e c]); ("RLock", [])], n + 1, VisitNext)
+          else ([("RUnlock", []); ("callback", [copy_of "TraitEntryOf[V]" e c])], n, VisitStop n)).
+Proof. exact tie_walk_visit_sharded. Qed.
+Print Assumptions C08_source_walk_visit.
